@@ -87,7 +87,7 @@ pub fn encode_run(pool: &Pool, spec: &RunSpec) -> Vec<u8> {
         specs_json.push(json!({
             "seed": sp.seed.to_string(), "clients": clients, "churn": sp.churn, "policy": policy_json(&sp.policy), "start": sp.start,
             "switches": sw, "est": sp.est_steps, "trace": sp.want_trace, "jumps": sp.clock_jumps, "depths": sp.stack_depths, "cpus": sp.cpu_limits,
-            "kill": sp.kill_step.to_string(),
+            "kill": sp.kill_step.to_string(), "iof": sp.io_fault.to_string(), "pwr": sp.power.to_string(),
         }));
         cur = sp.next.as_deref();
     }
@@ -172,6 +172,8 @@ pub fn decode_run(p: &[u8]) -> Option<(Pool, RunSpec)> {
             stack_depths: depths,
             cpu_limits: u32s(s.get("cpus")?)?,
             kill_step: s.get("kill").and_then(|x| x.as_str()).and_then(|x| x.parse().ok()).unwrap_or(0),
+            io_fault: s.get("iof").and_then(|x| x.as_str()).and_then(|x| x.parse().ok()).unwrap_or(0),
+            power: s.get("pwr").and_then(|x| x.as_str()).and_then(|x| x.parse().ok()).unwrap_or(0),
             next: None,
         });
     }
@@ -210,16 +212,21 @@ fn supervise(pool: &Pool, spec: &RunSpec) -> ! {
         if rec.get("killed").and_then(|x| x.as_bool()) == Some(true) {
             kills += 1;
         }
+        if sp.power != 0 && sp.next.is_some() {
+            // the machine loses power after this incarnation: what was not synced may be gone
+            rec["pl"] = json!(1);
+            rec["plf"] = json!(crate::disk::power_loss(sp.power));
+        }
         hashes.u64(u64::from_str_radix(rec.get("h").and_then(|x| x.as_str()).unwrap_or("0"), 16).unwrap_or(0));
         before.push(json!({"start": rec.get("start").cloned().unwrap_or(json!(0)), "switches": rec.get("switches").cloned().unwrap_or(json!([]))}));
         merged = Some(match merged.take() {
             None => rec,
             Some(mut m) => {
-                for k in ["calls", "ticks", "bt", "shh", "fw", "rsc", "steps", "sw", "cr", "wd", "sens", "hl", "tmo", "slp", "yld", "jn", "fo", "fp", "fh", "us_spawn", "us_total"] {
+                for k in ["calls", "ticks", "bt", "shh", "fw", "rsc", "steps", "sw", "cr", "wd", "sens", "hl", "tmo", "slp", "yld", "jn", "fo", "fp", "fh", "pl", "plf", "iop", "us_spawn", "us_total"] {
                     m[k] = json!(num(&m, k) + num(&rec, k));
                 }
                 m["mi"] = json!(num(&m, "mi").max(num(&rec, "mi")));
-                for k in ["f", "ps"] {
+                for k in ["f", "ps", "iof"] {
                     if let (Some(a), Some(b)) = (m.get(k).and_then(|x| x.as_array()).cloned(), rec.get(k).and_then(|x| x.as_array())) {
                         m[k] = Value::Array(a.iter().zip(b.iter()).map(|(x, y)| json!(x.as_u64().unwrap_or(0) + y.as_u64().unwrap_or(0))).collect());
                     }
